@@ -339,6 +339,25 @@ class Desugar(ast.NodeTransformer):
                 node.value = h[1]
                 r = self.visit(node)
                 return [h[0]] + (r if isinstance(r, list) else [r])
+        v = node.value
+        if self.func_stack and len(node.targets) == 1 and isinstance(v, ast.BoolOp) and isinstance(v.op, ast.Or) and len(v.values) == 2 and isinstance(v.values[0], ast.Name) \
+                and not any(isinstance(x, ast.NamedExpr) for x in ast.walk(v)):
+            # t = n or e   ->   if n: t = n else: t = e      (n = n or e  ->  if not n: n = e)
+            n_, e_ = v.values
+            tgt = node.targets[0]
+            self.count["or-default"] = self.count.get("or-default", 0) + 1
+            fill = ast.Assign(targets=[tgt], value=e_)
+            if isinstance(tgt, ast.Name) and tgt.id == n_.id:
+                new = ast.If(test=ast.UnaryOp(op=ast.Not(), operand=n_), body=[fill], orelse=[])
+            else:
+                new = ast.If(test=n_, body=[ast.Assign(targets=[copy.deepcopy(tgt)], value=ast.Name(id=n_.id, ctx=ast.Load()))], orelse=[fill])
+            ast.copy_location(new, node)
+            for x in ast.walk(new):
+                if not hasattr(x, "lineno") and isinstance(x, (ast.stmt, ast.expr)):
+                    ast.copy_location(x, node)
+            ast.fix_missing_locations(new)
+            r = self.visit(new)
+            return r if isinstance(r, list) else [r]
         if len(node.targets) == 1 and isinstance(node.targets[0], ast.Tuple) and isinstance(node.value, ast.Tuple) and self.func_stack and \
                 len(node.targets[0].elts) == len(node.value.elts) and all(isinstance(t_, ast.Name) for t_ in node.targets[0].elts) and \
                 not any(isinstance(x, ast.Starred) for x in node.value.elts):
@@ -365,8 +384,45 @@ class Desugar(ast.NodeTransformer):
                 return self._list_building(node.target.id, parts, node)
         return self.generic_visit(node)
 
+    def _or_default_argument(self, node: ast.Return):
+        """`return f(a, k=n or e)` with n a plain parameter of the function and everything evaluated before it effect free:
+        `if not n: n = e` in front (nothing runs after a return, so re-binding n is not observable)"""
+        call = node.value
+        fn = self.func_stack[-1]
+        if not isinstance(call, ast.Call) or not isinstance(fn, (ast.FunctionDef, ast.AsyncFunctionDef)) or not _simple(call.func):
+            return None
+        params = {a.arg for a in fn.args.posonlyargs + fn.args.args + fn.args.kwonlyargs}
+        args = list(call.args) + [k.value for k in call.keywords]
+        for i, a in enumerate(args):
+            if isinstance(a, ast.BoolOp) and isinstance(a.op, ast.Or) and len(a.values) == 2 and isinstance(a.values[0], ast.Name) and a.values[0].id in params:
+                if not all(_simple(x) for x in args[:i]) or any(isinstance(x, ast.NamedExpr) for x in ast.walk(a)):
+                    return None
+                if any(isinstance(x, (ast.Try, ast.With)) for x in ast.walk(fn)):
+                    return None          # a finally / __exit__ could still look at the parameter
+                n_ = a.values[0]
+                pre = ast.If(test=ast.UnaryOp(op=ast.Not(), operand=ast.Name(id=n_.id, ctx=ast.Load())),
+                             body=[ast.Assign(targets=[ast.Name(id=n_.id, ctx=ast.Store())], value=a.values[1])], orelse=[])
+                ast.copy_location(pre, node)
+                for x in ast.walk(pre):
+                    if not hasattr(x, "lineno") and isinstance(x, (ast.stmt, ast.expr)):
+                        ast.copy_location(x, node)
+                ast.fix_missing_locations(pre)
+                repl = ast.copy_location(ast.Name(id=n_.id, ctx=ast.Load()), a)
+                if i < len(call.args):
+                    call.args[i] = repl
+                else:
+                    call.keywords[i - len(call.args)].value = repl
+                self.count["or-default"] = self.count.get("or-default", 0) + 1
+                return pre
+        return None
+
     def visit_Return(self, node: ast.Return):
         if node.value is not None and self.func_stack:
+            pre = self._or_default_argument(node)
+            if pre is not None:
+                r1 = self.visit(pre)
+                r2 = self.visit(node)
+                return (r1 if isinstance(r1, list) else [r1]) + (r2 if isinstance(r2, list) else [r2])
             parts = self._comprehension_loop(node.value, node)
             if parts is not None:
                 self.tmp += 1
